@@ -177,6 +177,20 @@ def run_case(ctx, which, case):
                           traceback.format_exc()[-1200:])
     if which == 'C01' and ctx.evaluations % 3 == 0:
         check_sectional(ctx, case, spec, order)
+    if which == 'C03' and not case.get('then') and case.get('split') is None:
+        # the resolver that reports every feedback (GradeScope's): the score is the same sum
+        try:
+            report2, objs2 = reports.build(spec, order)
+            final2 = full.resolve(report2)
+            problems2, e2 = model.check(report2, final2, which=('C03',), requested=[dict(s_) for s_ in spec['suppressions']])
+            ctx.count('full_resolver_scores_checked')
+            for prop, key, detail in problems2:
+                if prop == 'C03':
+                    ctx.violation(key.replace('C03|', 'C03|full-resolver|', 1), case, detail)
+        except model.Unmodelled:
+            pass
+        except Exception as ex:
+            ctx.count('full_resolve_raised_(C01 territory)')
     if ctx.evaluations % 97 == 0:
         ctx.sample({'spec': spec, 'order': order, 'shown': [final.title, final.message, final.label],
                     'correct': final.correct, 'score': final.score})
@@ -244,6 +258,14 @@ def run_generated(ctx, which, n):
                 done += 1
         if rng.random() < 0.35:
             run_case(ctx, which, {'spec': spec, 'order': None, 'then': gen_steps(rng, spec)})
+            done += 1
+        scored = [f for f in spec['feedbacks'] if f['kw'].get('score') is not None]
+        if which == 'C03' and scored and rng.random() < 0.25:
+            # the same feedback given several times (a check inside a loop over test cases): every one of them carries its score
+            spec3 = dict(spec)
+            spec3['feedbacks'] = list(spec['feedbacks']) + [dict(rng.choice(scored)) for _ in range(rng.randint(1, 3))]
+            run_case(ctx, which, {'spec': spec3, 'order': None})
+            ctx.count('cases_with_a_repeated_feedback')
             done += 1
         if rng.random() < 0.2:
             spec2 = dict(spec)
